@@ -105,6 +105,7 @@ where
         let mut state = State::Initial;
         let mut last_parsed = LastParsed::Nothing;
         loop {
+            let position_before_element = input.get_position();
             match self.parser.parse(input) {
                 Ok(value) => {
                     // collect value
@@ -118,6 +119,8 @@ where
                         // always return on fatal errors
                         return Err(err);
                     }
+                    // the element did not match, make sure it did not consume anything
+                    input.set_position(position_before_element);
                     // maybe get delimiter
                     state = State::AfterNoValue;
                 }
@@ -125,6 +128,7 @@ where
 
             debug_assert!(state == State::AfterValue || state == State::AfterNoValue);
 
+            let position_before_delimiter = input.get_position();
             match self.delimiter.parse(input) {
                 Ok(_) => {
                     if state == State::AfterNoValue {
@@ -148,6 +152,8 @@ where
                         // always return on fatal errors
                         return Err(err);
                     }
+                    // the delimiter did not match, make sure it did not consume anything
+                    input.set_position(position_before_delimiter);
                     break;
                 }
             }
